@@ -361,6 +361,69 @@ def run(rep, tier):
     if nown < 2:
         rep.fault("R19.5: only %d EffectiveAuthority constructions with a `live` flag found" % nown)
 
+    # ------------------------------------------------------------------ R19.7 what the index knows is not what the caller may know
+    rep.rule("R19.7", "the index answers over stored rows, masked fields and unreadable elements included: ids it returns leave a read function only after "
+                      "Context::load; value constraints pushed into it are decided again on the redacted view; a search window is refilled after the visibility filter", floor=3)
+    # (a) ids from the index are loaded before they are returned
+    VEC_ID = "alloc::vec::Vec<anda_cognitive_nexus::id::ElementId>"
+    na = 0
+    for f in prog.fns.values():
+        if "/projection/" not in f.file:
+            continue
+        body = f
+        if VEC_ID not in body.locals[0] or "Result<" not in body.locals[0]:
+            continue
+        cands = f.calls_named(r"Context.*::candidates$")
+        if not cands:
+            continue
+        na += 1
+        rep.saw(f, len(cands))
+        direct = []
+        for b in f.live_blocks():
+            for st in f.stmts(b):
+                if st[0] == "A" and st[1]["l"] == 0 and not st[1].get("p") and st[2]["k"] == "agg" and st[2]["a"].get("def") == "core::result::Result" \
+                        and st[2]["a"].get("v") == "Ok":
+                    org = f.slice_back_op(st[2]["ops"][0], through=lambda ev: ev.callee in core.TRANSPARENT)
+                    if any(o[0] == "call" and re.search(r"Context.*::candidates(::\{closure#0\})?$", o[1].name or "") for o in org):
+                        direct.append("%s:%d" % (f.file, st[3] if len(st) > 3 else f.line))
+        rep.ob("R19.7", "candidate-ids-loaded-before-return|%s" % prog.outer_fn(f).path.rsplit("::", 1)[1], not direct,
+               "the ids the index returned are handed back as they are, without Context::load: a Proposition the caller may not read is listed "
+               "(BELIEF SLOT) or becomes a rival (BELIEF)", direct[0] if direct else f.file + ":%d" % f.line)
+    if na < 1:
+        rep.fault("R19.7: no projection function returning candidate ids found")
+    # (b) match_element: a constraint pushed into the index is decided again on the redacted view
+    me = [f for f in prog.fns.values() if f.path.endswith("::match_element::{closure#0}")]
+    if not me:
+        raise CheckerFault("anchor missing: match_element")
+    me = me[0]
+    rep.saw(me, len(me.events))
+    heads = [e.block for e in me.calls_named(r"Iterator>?::next$")]
+    pushes = [e for e in me.calls_named(r"alloc::vec::Vec::<T, A>::push$")]
+    fpush = [e for e in pushes if any(o[0] == "call" and (o[1].name or "").endswith("eq_field") for o in me.slice_back_op(e.args[1], through=lambda ev: False))
+             and any(me.dominates(h, e.block) and me.can_reach([e.block], [h]) for h in heads)]
+    ppush = {e.block for e in pushes if "(alloc::string::String, anda_cognitive_nexus::kql::matching::Slot)" in me.locals[core.op_place(e.args[0]).l]
+             or "Slot)" in me.locals[core.op_place(e.args[0]).l]} if pushes else set()
+    bad = []
+    for e in fpush:
+        encl = [h for h in heads if me.dominates(h, e.block) and me.can_reach([e.block], [h])]
+        if not me.must_pass(ppush, encl, start=e.block):
+            bad.append(e)
+    rep.ob("R19.7", "pushdown-redecided-on-view|match_element", bool(fpush) and not bad,
+           "a matcher value that has an index column is pushed into the index filter and never compared with the redacted view: for a reader for whom the "
+           "field is masked, which rows come back tells whether the guessed value was right", bad[0].where() if bad else me.file + ":%d" % me.line)
+    # (c) SEARCH: the window is refilled when the visibility filter emptied it
+    se = [f for f in prog.fns.values() if f.path.endswith("meta::inspect::search::{closure#0}")]
+    if not se:
+        raise CheckerFault("anchor missing: meta::inspect::search")
+    se = se[0]
+    rep.saw(se, len(se.events))
+    sa = se.calls_named(r"::search_advanced$")
+    outer = [e.block for e in se.calls_named(r"Iterator>?::next$") if "ElementKind" in ((e.finfo or {}).get("self") or "") or "(anda_kip" in ((e.finfo or {}).get("self") or "")]
+    refill = any(s_.block in se.reachable_from(se.succ[s_.block], avoid=set(outer)) for s_ in sa)
+    rep.ob("R19.7", "search-window-refilled|search", bool(sa) and bool(outer) and refill,
+           "SEARCH asks the index once for a fixed multiple of the page and filters afterwards: hits the caller may not read crowd the visible ones out "
+           "of the page (an empty page then counts the hidden matches)", sa[0].where() if sa else se.file + ":%d" % se.line)
+
     # ------------------------------------------------------------------ R19.6 page arithmetic over what the caller may see
     rep.rule("R19.6", "journal readers (HISTORY / CHANGES) count and page the rows only after the visibility filter: a total or cursor computed over the "
                       "unfiltered journal tells a restricted reader how many transactions (and whether an element) exist that it cannot read", floor=1)
